@@ -423,11 +423,112 @@ def run(prog, rep):
                    "line %d: the header pattern is applied without testing that the line's %s: lines such as `[x]y = v` or `[sec] ; note` open a section and swallow the keys that follow" % (line(hc), what), hc)
     rep.floor("C16.6", 3)
 
+    # ---- C16.7 -----------------------------------------------------------------------------
+    rep.rule("C16.7", "value pipeline: what the parse loop stores is the trimmed text - a section name and a key/value pair reach their constructors only as copies of "
+                      "p_strchomp results, and the empty-quotes test (\"\" and '' mean the empty string) is made on the trimmed value, so blanks left between the "
+                      "closing quote and a trailing comment cannot hide the quotes")
+    QUOTES = ('""', "''")
+    ctors = [(b, i, c) for (b, i, c) in ps.calls() if c.get("callee") in keep and "*" in (u.functions[c["callee"]].d.get("rets") or "") and c.get("args")]
+    if not ctors:
+        raise AnalysisBroken("p_ini_file_parse: no constructor call found for C16.7")
+    pipe_bad = {}
+    pipe_seen = {}
+    quote_tests = []
+
+    def st_get(st, v):
+        for x in st:
+            if x[0] == "s" and x[1] == v:
+                return x[2]
+        return None
+
+    def st_drop(st, v):
+        return frozenset(x for x in st if x[1] != v)
+
+    def pipe_stmt(st, b, i, stmt):
+        for n in walk(stmt):
+            if n["k"] == "call":
+                cal = n.get("callee")
+                if cal in ("sscanf", "__isoc99_sscanf", "fgets"):
+                    for a in (n["args"][2:] if cal != "fgets" else n["args"][:1]):
+                        v = root_var(a)
+                        if v:
+                            st = st_drop(st, v) | {("s", v, "raw")}
+                elif cal in ("strcpy", "__builtin_strcpy", "strncpy", "memcpy") and len(n["args"]) >= 2:
+                    d_, s_ = root_var(n["args"][0]), root_var(n["args"][1])
+                    a0, a1 = strip_casts(n["args"][0]), strip_casts(n["args"][1])
+                    if d_ and s_ and a0["k"] == "ref" and a1["k"] == "ref":
+                        st = st_drop(st, d_) | frozenset((x[0], d_) + tuple(x[2:]) for x in st if x[1] == s_)
+                    elif d_:
+                        st = st_drop(st, d_)
+                elif cal in keep and any(c is n for (_, _, c) in ctors):
+                    key_ = (line(n), cal)
+                    pipe_seen[key_] = n
+                    for k_, a in enumerate(n["args"]):
+                        v = root_var(a)
+                        if st_get(st, v) != "trim":
+                            pipe_bad.setdefault(key_, "line %d: %s, handed to %s, is %s: surrounding blanks are stored" % (
+                                line(n), v, cal, "the untrimmed conversion result" if st_get(st, v) == "raw" else "not a copy of a p_strchomp result"))
+                    if len(n["args"]) == 2:
+                        v = root_var(n["args"][1])
+                        done = ("e", v) in st or all(("t", v, q) in st for q in QUOTES)
+                        if not done and st_get(st, v) == "trim":
+                            pipe_bad.setdefault(key_, "line %d: the value %s reaches %s without the empty-quotes test having been made on its trimmed form: "
+                                                "`key = \"\" ; note` is stored as two quote characters" % (line(n), v, cal))
+            if n["k"] == "asg" or (n["k"] == "decl" and n.get("init") is not None):
+                l = strip_casts(n["l"]) if n["k"] == "asg" else {"k": "ref", "name": n.get("name")}
+                r = strip_casts(n["r"] if n["k"] == "asg" else n["init"])
+                if l is not None and l["k"] == "ref":
+                    st = st_drop(st, l["name"])
+                    if r is not None and r["k"] == "call" and r.get("callee") == "p_strchomp":
+                        st = st | {("s", l["name"], "trim")}
+                    elif r is not None and r["k"] == "ref" and st_get(st, r["name"]):
+                        st = st | frozenset((x[0], l["name"]) + tuple(x[2:]) for x in st if x[1] == r["name"])
+                elif l is not None and l["k"] == "idx" and cv(l["i"]) == 0 and cv(n["r"]) == 0 and n["k"] == "asg":
+                    v = root_var(l["base"])
+                    if v:
+                        st = st | {("e", v)}
+        return [st]
+
+    def pipe_edge(st, b, to, on):
+        c = b.cond
+        if c is not None and on in ("true", "false"):
+            for n in walk(c):
+                if n["k"] == "call" and n.get("callee") in ("strcmp", "__builtin_strcmp") and len(n["args"]) == 2:
+                    lit = [strip_casts(a) for a in n["args"] if strip_casts(a) is not None and strip_casts(a)["k"] == "str"]
+                    var = [root_var(a) for a in n["args"] if strip_casts(a) is not None and strip_casts(a)["k"] != "str"]
+                    if len(lit) == 1 and len(var) == 1 and lit[0].get("v") in QUOTES:
+                        state = st_get(st, var[0])
+                        if (line(n), var[0], state) not in [q[:3] for q in quote_tests]:
+                            quote_tests.append((line(n), var[0], state, n))
+                        if state == "trim":
+                            st = st | {("t", var[0], lit[0].get("v"))}
+        return st
+    Flow(ps, [frozenset()], pipe_stmt, pipe_edge, max_states=60000).run()
+    if not quote_tests:
+        raise AnalysisBroken("p_ini_file_parse: no comparison of the value with the \"\" / '' literals found (C16.7 anchor)")
+    for key_, n in sorted(pipe_seen.items()):
+        okp7 = key_ not in pipe_bad
+        rep.ob("C16.7", ps, "pipeline:%s" % key_[1], okp7, "%s receives trimmed text only%s" % (key_[1], " and the empty-quotes test is made on the trimmed value" if len(n["args"]) == 2 else "")
+               if okp7 else pipe_bad[key_], n)
+    rawq = [q for q in quote_tests if q[2] != "trim"]
+    rep.ob("C16.7", ps, "quotes:trimmed", not rawq, "the %d empty-quotes comparisons read the trimmed value" % len(quote_tests) if not rawq else
+           "line %d: %s is compared with the empty-quotes literal %s: blanks before a trailing comment make the comparison fail and the quotes are stored" % (
+               rawq[0][0], rawq[0][1], "before it is trimmed" if rawq[0][2] == "raw" else "while it is not a copy of a p_strchomp result"), rawq[0][3] if rawq else ps.loc[0])
+    rep.floor("C16.7", 3)
+
 
 # generic robustness battery: renaming every local/parameter in these files must not change any verdict
 RENAME_LOCALS = ['src/pinifile.c']
 
 SELFTEST = [
+    dict(id="empty-quotes-tested-before-trim", expect="C16.7", edits=[
+        dict(file="src/pinifile.c", old="\t\t\t/* New parameter found */\n", new="\t\t\t/* New parameter found */\n\t\t\tif (strcmp (value, \"\\\"\\\"\") == 0 || (strcmp (value, \"''\") == 0))\n\t\t\t\tvalue[0] = '\\0';\n\n"),
+        dict(file="src/pinifile.c", old="\t\t\t\t\tif (strcmp (value, \"\\\"\\\"\") == 0 || (strcmp (value, \"''\") == 0))\n\t\t\t\t\t\tvalue[0] = '\\0';\n\n\t\t\t\t\tif (section != NULL", new="\t\t\t\t\tif (section != NULL")]),
+    dict(id="trimmed-value-not-copied-back", file="src/pinifile.c", expect="C16.7",
+         old="\t\t\t\t\tstrcpy (value, tmp_str);\n\t\t\t\t\tp_free (tmp_str);\n\n\t\t\t\t\tif (strcmp", new="\t\t\t\t\tp_free (tmp_str);\n\n\t\t\t\t\tif (strcmp"),
+    dict(id="empty-quotes-tested-on-trimmed-copy-neutral", file="src/pinifile.c", expect=None,
+         old="\t\t\t\t\tstrcpy (value, tmp_str);\n\t\t\t\t\tp_free (tmp_str);\n\n\t\t\t\t\tif (strcmp (value, \"\\\"\\\"\") == 0 || (strcmp (value, \"''\") == 0))\n\t\t\t\t\t\tvalue[0] = '\\0';\n",
+         new="\t\t\t\t\tif (strcmp (tmp_str, \"\\\"\\\"\") == 0 || (strcmp (tmp_str, \"''\") == 0))\n\t\t\t\t\t\ttmp_str[0] = '\\0';\n\n\t\t\t\t\tstrcpy (value, tmp_str);\n\t\t\t\t\tp_free (tmp_str);\n"),
     dict(id="key-array-512", file="src/pinifile.c", expect="C16.1",
          old="\tpchar\t\tkey[P_INI_FILE_MAX_LINE + 1];", new="\tpchar\t\tkey[512];"),
     dict(id="line-buffer-4096", file="src/pinifile.c", expect="C16.1",
